@@ -334,12 +334,39 @@ func upsertWitness(fail func(string, ...any)) (bool, string) {
 	return len(r.Rows) != 0, fmt.Sprintf("rows (1,'bird'); INSERT INTO t (id, title) VALUES (1, 'cat') ON DUPLICATE KEY UPDATE title = 'dog'; SELECT id FROM t WHERE MATCH(title) AGAINST ('cat') returned %v, expected no row (title is 'dog')", idsOf(r))
 }
 
+// countsFinding: creating a FULLTEXT index on a table that already has one re-inserts every
+// row into the existing index's tables too; its global word counts are doubled, never return
+// to zero, and the relevance MATCH computes from them is wrong (even negative).
+const countsFinding = "C51-create-doubles-counts"
+
+func countsWitness(fail func(string, ...any)) (bool, string) {
+	f := fx.New(fx.Opts{})
+	defer f.Close()
+	s := f.NewSession("", "", "")
+	s.MustExec(fail,
+		"CREATE TABLE t (id INT PRIMARY KEY, title VARCHAR(200), body TEXT, FULLTEXT KEY ft (title))",
+		"INSERT INTO t VALUES (1, 'cat', 'fish'), (2, 'cat', 'fish')",
+		"CREATE FULLTEXT INDEX ft2 ON t (body)",
+		"DELETE FROM t WHERE id = 2")
+	r := s.Exec("SELECT MATCH(title) AGAINST ('cat') FROM t")
+	if !r.OK() || len(r.Rows) != 1 {
+		fail("witness query failed: %s", r)
+	}
+	v, err := strconv.ParseFloat(strings.TrimPrefix(fx.Norm(r.Rows[0][0], nil), "f:"), 64)
+	if err != nil {
+		fail("witness relevance is not a number: %s", r)
+	}
+	return !(v > 0), fmt.Sprintf("FULLTEXT ft(title), rows (1,'cat','fish'),(2,'cat','fish'); CREATE FULLTEXT INDEX ft2 ON t (body); DELETE FROM t WHERE id = 2; SELECT MATCH(title) AGAINST ('cat') FROM t returned relevance %v for the remaining row, which contains the word (expected > 0)", v)
+}
+
 type checker struct {
 	st   *stats.Collector
 	fail func(string, ...any)
 	s    *fx.Sess
 	m    *model
 	hist []string
+	// skipRelevance: the case lies in the region of C51-create-doubles-counts (listed)
+	skipRelevance bool
 }
 
 func (c *checker) history() string { return "  " + strings.Join(c.hist, ";\n  ") }
@@ -396,26 +423,42 @@ func (c *checker) checkSearch(search string, mode string) {
 				}
 			}
 		}
-		// relevance is positive exactly for the matching rows
-		q := "SELECT id, MATCH(" + cols + ") " + against + " FROM t"
-		r := c.s.Exec(q)
-		if !r.OK() {
-			c.fail("search failed: %s -> %s\nhistory:\n%s", q, r, c.history())
+		// relevance: "zero relevance means no similarity" - positive exactly for the matching
+		// rows; and, since t and its twin hold the same rows, the same value from both indexes
+		if c.skipRelevance {
+			c.st.Excluded(countsFinding)
+			continue
 		}
-		var pos []int
-		for _, row := range fx.NormRows(r.Schema, r.Rows) {
-			id, _ := strconv.Atoi(strings.TrimPrefix(row[0], "n:"))
-			f, err := strconv.ParseFloat(strings.TrimPrefix(row[1], "f:"), 64)
-			if err != nil {
-				c.fail("%s: relevance %q is not a number", q, row[1])
+		rel := map[string]map[int]float64{}
+		for _, tbl := range []string{"t", "tw"} {
+			q := "SELECT id, MATCH(" + cols + ") " + against + " FROM " + tbl
+			r := c.s.Exec(q)
+			if !r.OK() {
+				c.fail("search failed: %s -> %s\nhistory:\n%s", q, r, c.history())
 			}
-			if f > 0 {
-				pos = append(pos, id)
+			rel[tbl] = map[int]float64{}
+			var pos []int
+			for _, row := range fx.NormRows(r.Schema, r.Rows) {
+				id, _ := strconv.Atoi(strings.TrimPrefix(row[0], "n:"))
+				f, err := strconv.ParseFloat(strings.TrimPrefix(row[1], "f:"), 64)
+				if err != nil {
+					c.fail("%s: relevance %q is not a number", q, row[1])
+				}
+				rel[tbl][id] = f
+				if f > 0 {
+					pos = append(pos, id)
+				}
+			}
+			sort.Ints(pos)
+			if !eqInts(pos, want) {
+				c.fail("%s\n  relevance by id %v: rows with positive relevance %v, rows containing a search word: %v (table %s; tw is the twin rebuilt from scratch)\nhistory:\n%s", q, rel[tbl], pos, want, tbl, c.history())
 			}
 		}
-		sort.Ints(pos)
-		if !eqInts(pos, want) {
-			c.fail("%s\n  rows with positive relevance %v, rows containing a search word: %v\nhistory:\n%s", q, pos, want, c.history())
+		for id, f := range rel["t"] {
+			g := rel["tw"][id]
+			if d := f - g; d > 1e-6*(1+g) || -d > 1e-6*(1+g) {
+				c.fail("MATCH(%s) %s: relevance of row %d is %v from the incrementally maintained index and %v from the index of the twin table built from scratch with the same rows\nhistory:\n%s", cols, against, id, f, g, c.history())
+			}
 		}
 	}
 }
@@ -449,6 +492,8 @@ func TestC51(t *testing.T) {
 	excludeRewrite := rewriteRepro && kf.Listed(rewriteFinding)
 	dropRepro, _ := dropConfigWitness(t.Fatalf)
 	excludeDropFirst := dropRepro && kf.Listed(dropConfigFinding)
+	countsRepro, _ := countsWitness(t.Fatalf)
+	excludeCounts := countsRepro && kf.Listed(countsFinding)
 	rapid.Check(t, func(rt *rapid.T) {
 		st.Eval()
 		f := fx.New(fx.Opts{})
@@ -616,6 +661,11 @@ func TestC51(t *testing.T) {
 					cols = m.indexes[ix].cols
 				}
 				m.indexes[ix].cols = cols
+				if excludeCounts && len(m.indexes) > 1 && len(m.rows) > 0 {
+					// an index is created while another one exists and the table has rows: the
+					// other index's counts are off from here on
+					c.skipRelevance = true
+				}
 				if rapid.Bool().Draw(rt, "createsyntax") {
 					c.must("CREATE FULLTEXT INDEX " + m.indexes[ix].name + " ON t (" + strings.Join(cols, ", ") + ")")
 				} else {
@@ -674,7 +724,7 @@ func TestC51Known(t *testing.T) {
 		id string
 		fn func(func(string, ...any)) (bool, string)
 	}{
-		{dupFinding, dupWitness}, {upsertFinding, upsertWitness}, {rewriteFinding, rewriteWitness}, {dropConfigFinding, dropConfigWitness},
+		{dupFinding, dupWitness}, {upsertFinding, upsertWitness}, {rewriteFinding, rewriteWitness}, {dropConfigFinding, dropConfigWitness}, {countsFinding, countsWitness},
 	} {
 		st.Eval()
 		repro, desc := w.fn(t.Fatalf)
